@@ -20,7 +20,7 @@ Failure(r) ==
     /\ VersionParsed(q.version) =>
           /\ o.wrote = "error" /\ o.statusLineOK
           /\ o.status \in AllowedStatus(q, c)
-          /\ o.bodyLenOK
+          /\ o.bodyLenOK /\ o.bodyIsErr       \* the error text as a correctly sized body
           /\ (o.status = 426 => o.hasVersion13)
           /\ (c.extraHeader => o.hdrPresent)
           \* a status that only the rejecting callback can have produced carries the callback's headers
